@@ -186,16 +186,30 @@ class StmtMixin:
         if st.value is not None:
             self.assign(st.target, self.eval(st.value, fr), fr, st)
 
+    def augop(self, op, cur, rhs, st):
+        """x op= y: in place for mutable containers (list += iterable is list.extend on the same object), a new value otherwise"""
+        if isinstance(cur, VRef) and isinstance(self.ex.heap[cur.addr], (HList, HSymList)):
+            if not isinstance(op, ast.Add):
+                raise Undecided(f'in-place operator {type(op).__name__} on a list')
+            if isinstance(self.ex.heap[cur.addr], HList):
+                self.cm_HList_extend(cur, rhs)
+            else:
+                self.cm_HSymList_extend(cur, rhs)
+            return cur
+        if isinstance(cur, VRef) and not isinstance(self.ex.heap[cur.addr], HObj):
+            raise Undecided(f'in-place operator {type(op).__name__} on a mutable container')
+        return self.binop(op, cur, rhs, st)
+
     def s_AugAssign(self, st, fr):
         t = st.target
         if isinstance(t, ast.Name):
             cur = self.lookup(t.id, fr, t)
-            new = self.binop(st.op, cur, self.eval(st.value, fr), st)
+            new = self.augop(st.op, cur, self.eval(st.value, fr), st)
             self.assign(t, new, fr, st)
         elif isinstance(t, ast.Attribute):
             obj = self.eval(t.value, fr)
             cur = self.getattr(obj, t.attr, t, fr)
-            new = self.binop(st.op, cur, self.eval(st.value, fr), st)
+            new = self.augop(st.op, cur, self.eval(st.value, fr), st)
             if fr.inject and self.ex.inject and self.ex.inject.split_store:
                 self.injection_point(st, fr, phase='store')
             self.setattr(obj, t.attr, new, st, fr)
@@ -203,7 +217,7 @@ class StmtMixin:
             obj = self.eval(t.value, fr)
             idx = self.eval(t.slice, fr)
             cur = self.getitem(obj, idx, t)
-            new = self.binop(st.op, cur, self.eval(st.value, fr), st)
+            new = self.augop(st.op, cur, self.eval(st.value, fr), st)
             self.setitem(obj, idx, new, st)
         else:
             raise Undecided('augmented assignment target')
@@ -226,10 +240,29 @@ class StmtMixin:
             else:
                 self.setitem(obj, self.eval(t.slice, fr), v, node or t)
         elif isinstance(t, (ast.Tuple, ast.List)):
+            stars = [i for i, sub in enumerate(t.elts) if isinstance(sub, ast.Starred)]
+            if stars:
+                # a, *b, c = concrete sequence
+                if isinstance(v, VTuple):
+                    items = list(v.items)
+                elif isinstance(v, VRef) and isinstance(self.ex.heap[v.addr], HList):
+                    items = list(self.ex.heap[v.addr].items)
+                else:
+                    raise Undecided('starred assignment target with a non-concrete right-hand side')
+                si = stars[0]
+                after = len(t.elts) - si - 1
+                if len(stars) > 1:
+                    raise Undecided('several starred assignment targets')
+                if len(items) < si + after:
+                    self.throw('ValueError', f'not enough values to unpack (expected at least {si + after}, got {len(items)})')
+                for sub, pv in zip(t.elts[:si], items[:si]):
+                    self.assign(sub, pv, fr, node)
+                self.assign(t.elts[si].value, self.ex.alloc(HList(items[si:len(items) - after])), fr, node)
+                for sub, pv in zip(t.elts[si + 1:], items[len(items) - after:]):
+                    self.assign(sub, pv, fr, node)
+                return
             parts = self.unpack(v, len(t.elts), node or t)
             for sub, pv in zip(t.elts, parts):
-                if isinstance(sub, ast.Starred):
-                    raise Undecided('starred assignment target')
                 self.assign(sub, pv, fr, node)
         else:
             raise Undecided('assignment target ' + type(t).__name__)
@@ -351,6 +384,8 @@ class StmtMixin:
                             self.exec_block(h.body, fr)
                         finally:
                             fr.cur_exc = saved
+                            if h.name:
+                                fr.locals[h.name] = None      # `except E as e` unbinds e when the handler is left
                         break
                 if not handled:
                     raise
